@@ -85,6 +85,105 @@ fn placer(case: &Value) -> Value {
     }
 }
 
-fn track_ops(_case: &Value) -> Value { json!({"outcome":"todo"}) }
-fn tetris_compile(_case: &Value) -> Value { json!({"outcome":"todo"}) }
-pub fn compile_digest(_input: &Value) -> Result<String, String> { Err("not built yet".into()) }
+fn segs_json(tr: &t::tracks::Track) -> Value {
+    use t::tracks::TrackSegmentType::*;
+    Value::Array(tr.segments.iter().map(|s| { let (tp, net) = match &s.tp {
+            Cut { .. } => ("cut", String::new()), Blockage { .. } => ("block", String::new()),
+            Wire { src } => ("wire", src.map(|a| a.net.clone()).unwrap_or_default()), Rail(_) => ("rail", String::new()) };
+        json!({"tp": tp, "start": s.start.0, "stop": s.stop.0, "net": net}) }).collect())
+}
+/// C08 level 1: {span, kind, hist:[{op:{op,a,b,net}, ...}]} -> outcome and segments after every operation
+fn track_ops(case: &Value) -> Value {
+    use t::coords::DbUnits;
+    use t::tracks::*;
+    let span = geti(case, "span") as isize;
+    let rail = gets(case, "kind") == "rail";
+    let cross: &'static TrackCross = Box::leak(Box::new(TrackCross::from_parts(0, 0, 1, 0)));
+    let leafcell = Ptr::new(t::cell::Cell::new("c"));
+    let inst = Ptr::new(t::instance::Instance { inst_name: "i".into(), cell: leafcell, loc: (0isize, 0isize).into(), reflect_horiz: false, reflect_vert: false });
+    let mut tr = Track { data: TrackData { ttype: if rail { TrackType::Rail(RailKind::Gnd) } else { TrackType::Signal }, index: 0, dir: raw::Dir::Horiz, start: DbUnits(0), width: DbUnits(2) },
+        segments: vec![TrackSegment { tp: if rail { TrackSegmentType::Rail(RailKind::Gnd) } else { TrackSegmentType::Wire { src: None } }, start: DbUnits(0), stop: DbUnits(span) }] };
+    let mut steps = Vec::new();
+    for h in geta(case, "hist") {
+        let o = &h["op"];
+        let (a, b) = (geti(o, "a") as isize, geti(o, "b") as isize);
+        let r = match gets(o, "op") {
+            "cut" => tr.cut(DbUnits(a), DbUnits(b), cross),
+            "block" => tr.block(DbUnits(a), DbUnits(b), &inst),
+            "setnet" => { let assn: &'static t::stack::Assign = Box::leak(Box::new(t::stack::Assign::new(gets(o, "net"), *cross))); tr.set_net(DbUnits(a), assn) }
+            _ => panic!("op"),
+        };
+        steps.push(json!({"outcome": match r { Ok(()) => "ok".to_string(), Err(e) => format!("err: {:?}", e).chars().take(60).collect() }, "segs": segs_json(&tr)}));
+    }
+    json!({"id": id(case), "outcome":"ok", "steps": steps})
+}
+/// abstract stack (specs/tetris/TetrisCompile.tla) -> ValidStack.  Metal i gets raw layer number 10+i, via i (between
+/// metal i and i+1) raw layer number 100+i, so that the compiled elements can be attributed to their stack layer.
+fn stack_of(s: &Value) -> Result<t::validate::ValidStack, String> {
+    use t::stack::*;
+    use t::tracks::*;
+    let mut rawlayers = raw::Layers::default();
+    let purps = [(0, raw::LayerPurpose::Drawing), (1, raw::LayerPurpose::Pin), (2, raw::LayerPurpose::Label), (3, raw::LayerPurpose::Obstruction)];
+    let boundary_layer = Some(rawlayers.add(raw::Layer::from_pairs(0, &[(0, raw::LayerPurpose::Outline)]).unwrap()));
+    let mut metals = Vec::new();
+    for (i, m) in geta(s, "metals").iter().enumerate() {
+        let entries = geta(m, "entries").iter().map(|e| { let w = geti(e, "w") as isize;
+            match gets(e, "tt") { "sig" => TrackSpec::sig(w), "gap" => TrackSpec::gap(w), "pwr" => TrackSpec::pwr(w), "gnd" => TrackSpec::gnd(w), _ => panic!("tt") } }).collect();
+        metals.push(MetalLayer { name: format!("met{i}"), dir: if gets(m, "dir") == "H" { raw::Dir::Horiz } else { raw::Dir::Vert },
+            cutsize: (geti(m, "cutsize") as isize).into(), entries, offset: (geti(m, "offset") as isize).into(), overlap: (geti(m, "overlap") as isize).into(),
+            flip: if getb(m, "flip") { FlipMode::EveryOther } else { FlipMode::None }, prim: PrimitiveMode::Stack,
+            raw: Some(rawlayers.add(raw::Layer::from_pairs(10 + i as i16, &purps).unwrap())) });
+    }
+    let mut vias = Vec::new();
+    for (i, v) in geta(s, "vias").iter().enumerate() {
+        vias.push(ViaLayer { name: format!("via{i}"), top: ViaTarget::Metal(i + 1), bot: ViaTarget::Metal(i), size: (geti(v, "sx") as isize, geti(v, "sy") as isize).into(),
+            raw: Some(rawlayers.add(raw::Layer::from_pairs(100 + i as i16, &purps).unwrap())) });
+    }
+    Stack { units: raw::Units::Nano, prim: PrimitiveLayer::new((geti(s, "px") as isize, geti(s, "py") as isize).into()), metals, vias,
+            rawlayers: Some(Ptr::new(rawlayers)), boundary_layer }.validate().map_err(err_str)
+}
+fn gridded_lib_of(c: &Value) -> (t::library::Library, Ptr<t::cell::Cell>) {
+    let mut lib = t::library::Library::new("glib");
+    let mut top = t::layout::Layout::new("top", geti(c, "metals") as usize, t::outline::Outline::rect(geti(c, "nx") as isize, geti(c, "ny") as isize).unwrap());
+    for (k, i) in geta(c, "insts").iter().enumerate() {
+        let leaf = t::layout::Layout::new(format!("leaf{k}"), geti(i, "m") as usize, t::outline::Outline::rect(geti(i, "w") as isize, geti(i, "h") as isize).unwrap());
+        let lp = lib.cells.add(t::cell::Cell::from(leaf));
+        top.instances.add(t::instance::Instance { inst_name: format!("i{k}"), cell: lp, loc: (geti(i, "x") as isize, geti(i, "y") as isize).into(),
+            reflect_horiz: getb(i, "rh"), reflect_vert: getb(i, "rv") });
+    }
+    for x in geta(c, "cuts") { top.cuts.push(t::tracks::TrackCross::from_parts(geti(x, "l") as usize, geti(x, "t") as usize, geti(x, "cl") as usize, geti(x, "ct") as usize)); }
+    for a in geta(c, "assigns") { top.assignments.push(t::stack::Assign::new(gets(a, "net"),
+        t::tracks::TrackCross::from_parts(geti(a, "l") as usize, geti(a, "t") as usize, geti(a, "cl") as usize, geti(a, "ct") as usize))); }
+    let tp = lib.cells.add(t::cell::Cell::from(top));
+    (lib, tp)
+}
+fn compile(case: &Value) -> Result<Value, String> {
+    let stack = stack_of(&case["stack"])?;
+    let (lib, _) = gridded_lib_of(&case["cell"]);
+    let rawlib = lib.to_raw(stack).map_err(err_str)?;
+    let rl = rawlib.read().map_err(|_| "poisoned".to_string())?;
+    let layers = rl.layers.read().map_err(|_| "poisoned".to_string())?;
+    let top = rl.cells.iter().find(|c| c.read().unwrap().name == "top").ok_or("no top cell")?.clone();
+    let top = top.read().unwrap();
+    let lay = top.layout.as_ref().ok_or("top has no layout")?;
+    let mut rects = Vec::new();
+    for e in &lay.elems {
+        let num = layers.get(e.layer).map(|l| l.layernum).unwrap_or(-1) as i64;
+        let layer = if num >= 100 { num } else { num - 10 };
+        match &e.inner {
+            raw::Shape::Rect(r) => rects.push(json!({"layer": layer, "rect": [r.p0.x.min(r.p1.x), r.p0.y.min(r.p1.y), r.p0.x.max(r.p1.x), r.p0.y.max(r.p1.y)],
+                                                     "raw": [r.p0.x, r.p0.y, r.p1.x, r.p1.y], "net": e.net.clone().unwrap_or_default()})),
+            other => rects.push(json!({"layer": layer, "other": format!("{:?}", other)})),
+        }
+    }
+    Ok(json!({"rects": rects, "insts": lay.insts.len()}))
+}
+/// C08 level 2: {stack, cell} -> rectangles of the compiled top cell
+fn tetris_compile(case: &Value) -> Value {
+    match guarded(|| compile(case)) {
+        Err(p) => json!({"id": id(case), "outcome":"panic","msg":p}),
+        Ok(Err(e)) => json!({"id": id(case), "outcome":"err","msg":e}),
+        Ok(Ok(v)) => json!({"id": id(case), "outcome":"ok","rects": v["rects"], "insts": v["insts"]}),
+    }
+}
+pub fn compile_digest(input: &Value) -> Result<String, String> { compile(input).map(|v| v.to_string()) }
